@@ -1,5 +1,5 @@
 """C19 - every well-formed query returns a fresh set of the structure's own states."""
-from .. import core, fm, km
+from .. import core, fm, km, graphs
 from ..core import Failure
 
 STATE_POOLS = {
@@ -199,7 +199,74 @@ def inspect(res, stateset):
     return None
 
 
-CHECKS = {'query': check_query}
+BUSY, DONE = ('ap', 'busy'), ('ap', 'done')
+BIG_QUERIES = [('CTL', ('A', ('F', DONE))), ('CTL', ('E', ('G', BUSY))), ('CTL', ('A', ('U', BUSY, DONE))),
+               ('CTL', ('E', ('R', DONE, BUSY))), ('CTL', ('E', ('U', BUSY, DONE))), ('CTL', ('A', ('G', ('E', ('F', DONE))))),
+               ('CTL', ('A', ('X', BUSY))), ('CTLS', ('A', ('F', DONE))), ('CTLS', ('E', ('G', ('F', DONE)))),
+               ('CTLS', ('A', ('R', DONE, BUSY))), ('LTL', ('F', DONE)), ('LTL', ('U', BUSY, DONE)), ('LTL', ('G', ('F', BUSY)))]
+
+
+def check_big(inp):
+    """SIZE: a structure with hundreds or thousands of states (a timer, a ring, a tree ...) under string
+    or tuple state names: the query returns a set of K's own states, again after the first result
+    was emptied by the caller, whatever the length of the chains inside K."""
+    K = km.big_structure(inp['shape'], inp['N'])
+    naming = inp.get('naming', 'str')
+    nm = graphs.NAMINGS[naming] if naming != 'str' else (lambda i: 'state-%d' % i)
+    from pyModelChecking.kripke import Kripke
+    try:
+        kripke = Kripke(S=[nm(i) for i in range(K['n'])], R=[(nm(a), nm(b)) for a, b in K['edges']],
+                        L=dict((nm(i), set(K['labels'][i])) for i in range(K['n'])))
+    except Exception as e:
+        return Failure('big', inp, 'the structure can be built', 'raised %s: %s' % (type(e).__name__, str(e)[:150]))
+    checker = inp['checker']
+    L = fm.lang(checker)
+    f = fm.from_json(inp['f'])
+    arg = fm.to_lib(('A', f) if checker == 'LTL' else f, L)
+    stateset = set(nm(i) for i in range(K['n']))
+    saved = None
+    for rnd in (1, 2):
+        try:
+            with core.quiet():
+                r = L.modelcheck(kripke, arg)
+        except Exception as e:
+            return Failure('big', inp, 'a set of states', 'raised %s: %s' % (type(e).__name__, str(e)[:150]), 'call %d' % rnd)
+        p = inspect(r, stateset)
+        if p:
+            return Failure('big', inp, 'a set of K\'s states', p, 'call %d' % rnd)
+        if saved is not None and r != saved:
+            return Failure('big', inp, '%d states' % len(saved), '%d states' % len(r), 'emptying the first result changed the second')
+        saved = set(r)
+        r.clear()
+    if len(kripke.states()) != K['n'] or len(kripke.transitions()) != len(K['edges']):
+        return Failure('big', inp, 'structure unchanged', 'states or transitions changed')
+    return None
+
+
+def big_shard(st, shard, nshards, payload):
+    i = -1
+    for shape in km.BIG_SHAPES:
+        for N in payload['Ns']:
+            for qi, (checker, f) in enumerate(BIG_QUERIES):
+                i += 1
+                if i % nshards != shard:
+                    continue
+                if checker != 'CTL' and N > payload['other_max']:
+                    continue
+                inp = {'shape': shape, 'N': N, 'checker': checker, 'f': f, 'naming': ('str', 'tuple', 'int')[(i // nshards) % 3]}
+                st.evaluations += 1
+                st.nontrivial += 1
+                st.bump('size: %s, %d+ states' % (checker, 1000 * (N // 1000)))
+                if qi == 0:
+                    st.sample(inp, cls='big-' + shape)
+                r = check_big(inp)
+                if r is not None:
+                    if st.failure is None:
+                        st.failure = r
+                    return
+
+
+CHECKS = {'query': check_query, 'big': check_big}
 
 
 def replay(ctx, rec):
@@ -277,7 +344,8 @@ def run(ctx):
                 'mutate the returned set (add junk / clear / symmetric difference), call again.  '
                 'Oracle: no exception of any type, result is a set of K\'s own states, the second '
                 'result equals the saved copy of the first and is a different object, it aliases '
-                'nothing inside K, K\'s deep snapshot is unchanged.  No exactness claim.  '
+                'nothing inside K, K\'s deep snapshot is unchanged.  SIZE: the same questions on timers, rings, trees ... with '
+                'hundreds to thousands of states (chains as long as the structure).  No exactness claim.  '
                 'Non-trivial = (>= 2 Python types among the states or a non-identifier / non-string / '
                 'reserved-word label) and a temporal operator in the formula.')
     ctx.assumptions = ['formula depth <= 3: CPython\'s recursion limit makes deeper nests raise '
@@ -288,5 +356,12 @@ def run(ctx):
     shards, n = ctx.pick((16, 200), (16, 1500))
     ctx.scopes = ['%d Hypothesis processes x %d cases' % (shards, n)]
     f = core.run_sharded(ctx, random_shard, {'seed': ctx.seed, 'n': n}, nshards=shards)
+    if f is not None:
+        ctx.violation(f)
+        return
+    bp = {'Ns': ctx.pick([350, 1300], [150, 700, 1300, 3100]), 'other_max': ctx.pick(350, 1300)}
+    ctx.scopes.append('size: 8 shapes (timer, countdown, ring, lollipop, ladder, tree, two rings, fan) with %s states x 13 queries '
+                      '(CTL; CTL* and LTL up to %d states), string / tuple / int state names' % ([n_ + 1 for n_ in bp['Ns']], bp['other_max'] + 1))
+    f = core.run_sharded(ctx, big_shard, bp)
     if f is not None:
         ctx.violation(f)
